@@ -9,6 +9,7 @@ satisfies all of its predicates (`checkNogood_sound`).
 import Pumpkin.Spec.Basic
 import Pumpkin.Check.Oracle
 import Pumpkin.Model.SemMin
+import Pumpkin.Model.RecMin
 
 namespace Pumpkin.C02
 
@@ -62,6 +63,43 @@ theorem semantic_minimiser_preserves_meaning (orig : Nat → Pumpkin.SemMin.SD) 
        | none => False
        | some out => ∀ q ∈ out, q.holds a = true) :=
   Pumpkin.SemMin.minimise_sem orig ng merge a ha
+
+/-- The recursive minimiser (`Model/RecMin.lean` mirrors `recursive_minimiser.rs`) only removes
+predicates which follow from the ones it keeps: if every reason is an implication and the reason
+graph is acyclic, then in every assignment in which the minimised nogood's predicates all hold,
+the original nogood's predicates all hold — for every recursion-depth limit. A learned nogood which
+was implied by the model therefore stays implied after minimisation. -/
+theorem recursive_minimiser_preserves_meaning (ctx : Pumpkin.RecMin.Ctx) (ng : List Nat) (rank : Nat → Nat)
+    (v : Nat → Prop) (hlimit : 0 < ctx.limit)
+    (hrank : ∀ p, ∀ a ∈ (ctx.info p).reason, rank a < rank p)
+    (hreason : ∀ p, (ctx.info p).isDecision = false → (∀ a ∈ (ctx.info p).reason, v a) → v p)
+    (hkept : ∀ q ∈ (Pumpkin.RecMin.removeDominated ctx ng).2, v q) : ∀ p ∈ ng, v p :=
+  Pumpkin.RecMin.removeDominated_sound ctx ng rank v hlimit hrank hreason hkept
+
+/-- … and it never invents predicates. -/
+theorem recursive_minimiser_subset (ctx : Pumpkin.RecMin.Ctx) (ng : List Nat) :
+    ∀ q ∈ (Pumpkin.RecMin.removeDominated ctx ng).2, q ∈ ng :=
+  Pumpkin.RecMin.removeDominated_sub ctx ng
+
+/-- non-vacuity: decision 0 (level 1) implies 1 (level 1); 1 and 0 imply 2 (level 2), 2 implies 3
+(level 2, the current level). From the nogood {3, 1, 0} the predicate 1 is removed; with depth limit 1
+nothing is removed. -/
+def exCtx (limit : Nat) : Pumpkin.RecMin.Ctx :=
+  { info := fun p => match p with
+      | 0 => ⟨1, true, []⟩ | 1 => ⟨1, false, [0]⟩ | 2 => ⟨2, false, [1, 0]⟩ | 3 => ⟨2, false, [2]⟩
+      | _ => ⟨0, false, []⟩,
+    limit := limit, curLevel := 2 }
+
+example : (Pumpkin.RecMin.removeDominated (exCtx 500) [3, 1, 0]).2 = [3, 0] := by decide +kernel
+example : (Pumpkin.RecMin.removeDominated (exCtx 1) [3, 1, 0]).2 = [3, 1, 0] := by decide +kernel
+example : ∀ p, ∀ a ∈ ((exCtx 500).info p).reason, a < p := by
+  intro p a ha
+  match p with
+  | 0 => simp [exCtx] at ha
+  | 1 => simp [exCtx] at ha; omega
+  | 2 => simp [exCtx] at ha; omega
+  | 3 => simp [exCtx] at ha; omega
+  | _ + 4 => simp [exCtx] at ha
 
 example : (solutions (Model.mk [[0, 1], [0, 1]]
     [Cons.linNe [⟨1, 0, 0⟩, ⟨-1, 0, 1⟩] 0, Cons.linEq [⟨1, 0, 0⟩, ⟨1, 0, 1⟩] 2])).isEmpty = true := by
